@@ -109,6 +109,7 @@ def find_meshes(tier, seed):
     p, t = U.line_points([3, 4, 6, 9, 10, 12, 13])
     add('line', *U.submesh(p, t, [0, 2, 3, 5]), 'line-components')
     # ---- triangles
+    add('tri', *G.tensor_tri([0, 3], [0, 2]), 'tri-tiny')                  # fewer cells than the 5 candidates
     add('tri', *G.tensor_tri([0, 1, 2, 3], [0, 1, 2, 3]), 'tri-lattice')
     add('tri', *G.tensor_tri([0, 16, 17, 18, 19, 20], [0, 16], (0, 1, 0, 1, 0)), 'tri-graded')
     add('tri', *G.tensor_tri([0, 1, 2, 4, 8, 16, 32], [0, 1, 2]), 'tri-graded')
@@ -122,6 +123,7 @@ def find_meshes(tier, seed):
         add('tri', *U.delaunay_int(2, int(rng.integers(6, 16)), 12, rng), 'tri-delaunay')
         add('tri', *G.clustered_delaunay(2, rng, nbig=3, ncl=int(rng.integers(5, 9))), 'tri-delaunay-clustered')
     # ---- quadrilaterals
+    add('quad', *G.tensor_quad([0, 2], [0, 3]), 'quad-tiny')
     add('quad', *G.tensor_quad([0, 1, 2, 3], [0, 1, 2]), 'quad-lattice')
     add('quad', *G.tensor_quad([0, 16, 17, 18, 19, 20, 21, 22], [0, 16]), 'quad-graded')
     add('quad', *G.tensor_quad([0, 1, 2, 4, 8, 16], [0, 1, 9]), 'quad-graded')
@@ -133,6 +135,7 @@ def find_meshes(tier, seed):
     add('quad', *G.drop_cells(p, t, [4]), 'quad-nonconvex')
     add('quad', G.shear(p, 1), t, 'quad-sheared')
     # ---- tetrahedra
+    add('tet', *U.tet_cubes(1, 5), 'tet-tiny')                             # fewer cells than the 10 candidates
     add('tet', *U.tet_cubes(2, 6), 'tet-cubes')
     add('tet', *U.tet_cubes(2, 5), 'tet-cubes')
     add('tet', *G.tensor_tet([0, 16, 17, 18, 19, 20], [0, 16], [0, 16]), 'tet-graded')
@@ -143,6 +146,7 @@ def find_meshes(tier, seed):
         add('tet', *U.delaunay_int(3, int(rng.integers(6, 11)), 6, rng), 'tet-delaunay')
         add('tet', *G.clustered_delaunay(3, rng, nbig=2, ncl=int(rng.integers(4, 7)), box=8), 'tet-delaunay-clustered')
     # ---- hexahedra (boxes and parallelepipeds: planar faces)
+    add('hex', *G.tensor_hex([0, 2], [0, 1], [0, 3]), 'hex-tiny')
     add('hex', *G.tensor_hex([0, 1, 2], [0, 1, 2], [0, 1]), 'hex-lattice')
     add('hex', *G.tensor_hex([0, 16, 17, 18, 19, 20], [0, 16], [0, 16]), 'hex-graded')
     p, t = G.tensor_hex([0, 1, 3], [0, 2, 3], [0, 1, 2])
@@ -168,7 +172,10 @@ DYADIC_X = {            # numerators over 8
 PSCALE = 8              # coordinate scale of the probe scenarios
 
 
-def probe_recipe(kind, p, t, elem, rng, fam):
+SLOW = {'ElementHexC1'}      # ElementGlobal evaluates (maxdeg/2+1)^3 monomials x 13 derivatives per basis function and call
+
+
+def probe_recipe(kind, p, t, elem, rng, fam, tier='quick'):
     ins, oth = query_points(kind, p, t, rng, nmax=40)
     ins = [[2 * x for x in q] for q in ins]                          # SCALE 4 -> PSCALE 8
     oth = [[2 * x for x in q] for q in oth]
@@ -189,6 +196,8 @@ def probe_recipe(kind, p, t, elem, rng, fam):
              {'op': 'point_source', 'pts': [a]},                     # scalar elements only (skipped otherwise)
              {'op': 'point_source', 'pts': [g(11)]},
              {'op': 'interpolator_nd', 'pts': [g(j) for j in range(6)]}]      # trailing axes (scalar elements only)
+    if elem in SLOW:
+        calls = [calls[0], calls[2], calls[3]] + ([calls[5], calls[7]] if tier == 'thorough' else [])
     return {'driver': 'probe', 'kind': kind, 'family': fam, 'S': PSCALE, 'elem': elem,
             'p': np.asarray(p).astype(int).tolist(), 't': np.asarray(t).astype(int).tolist(),
             'yseed': int(rng.integers(0, 2 ** 31 - 1)), 'calls': calls}
@@ -419,16 +428,21 @@ def model(ctx):
 
 
 def replay_recipes(out_file, tier, rng):
+    """The (mesh, batch) pairs TLC enumerated, as Find scenarios with model = 1 (FindImpl is re-evaluated by the
+    trace specification and compared with the code: agreement / drift is evidence).  Quick tier: a sample."""
     recs = []
     if not os.path.exists(out_file):
         return recs
     for u in json.load(open(out_file)):
         batches = u['batches']
-        if tier != 'thorough' and len(batches) > 120:
-            batches = [batches[j] for j in rng.permutation(len(batches))[:120]]
-        recs.append({'driver': 'find', 'kind': u['kind'], 'family': 'TLC-universe', 'S': 1,
-                     'p': np.array(u['p']).T.tolist(), 't': (np.array(u['t']).T - 1).tolist(),
-                     'calls': batches, 'model': 1})
+        three = len(u['p'][0]) == 3
+        cap = (60 if three else 150) if tier == 'thorough' else (10 if three else 30)
+        if len(batches) > cap:
+            batches = [batches[j] for j in rng.permutation(len(batches))[:cap]]
+        for j in range(0, len(batches), 5):                       # small scenarios shard evenly over the JVMs
+            recs.append({'driver': 'find', 'kind': u['kind'], 'family': 'TLC-universe', 'S': 1,
+                         'p': np.array(u['p']).T.tolist(), 't': (np.array(u['t']).T - 1).tolist(),
+                         'calls': batches[j:j + 5], 'model': 1})
     return recs
 
 
@@ -449,7 +463,7 @@ def run(ctx):
         for name, meta in EL.CATALOGUE.items():
             for variant in range(2 if th else 1):
                 p, t = probe_meshes(meta['kind'], prng, variant + len(name) + ctx.seed)
-                recs.append(probe_recipe(meta['kind'], p, t, name, prng, 'probe-mesh'))
+                recs.append(probe_recipe(meta['kind'], p, t, name, prng, 'probe-mesh', ctx.tier))
         scs = procs.map(_scen, [(f'C14-{k}', r) for k, r in enumerate(recs)])
         ctx.validate('TraceC14', scs)
         out_file = fut.result()
